@@ -169,6 +169,18 @@ inline void emit_record(bool ok, const std::string& cls, const std::string& det,
         }
         o += '}';
     }
+    {
+        const char* hn[160]; uint64_t hc[160];
+        int n = rt_named_probes(hn, hc, 160);
+        bool any = false;
+        for (int i = 0; i < n; ++i) {
+            if (!hc[i]) continue;
+            o += any ? "," : ",\"hp\":{";
+            any = true;
+            json_str(o, hn[i]); o += ':' + std::to_string(hc[i]);
+        }
+        if (any) o += '}';
+    }
     if ((s.full || force_full) && s.w) {
         o += ",\"cfg\":"; json_ints(o, s.w->cfg);
         o += ",\"sim\":"; json_ints(o, s.w->simv);
